@@ -1367,7 +1367,8 @@ def run_c02(ctx):
         shape = rng.choice(["const\n  C = %s%s%s;%s\n", "const\n  C: Integer = %s%s%s;%s\n  D = 2;\n", "var\n  V: Integer = %s%s%s;%s\n",
                             "type\n  TRec = record\n    F: Integer;\n  end;\nconst\n  K = %s%s%s;%s\n"])
         cases.append(ctx.case("portability", shape % (val, sep, d, trail), gen.random_cfg(rng)))
-    ctx.run_stream(cases, units=["spacing", "generics", "invariants", "relex", "lex", "comment", "lower", "recon"])
+    ctx.run_stream(cases, units=["spacing", "generics", "invariants", "relex", "lex", "comment", "lower", "recon", "grammar"])
+    ctx.hypotheses["the parser is the modelled grammar (C02_parser_only_retypes is a theorem about the model)"] = "unit grammar on every case of the main stream"
     ctx.hypotheses["plan_ok: break after line comments / unterminated literals, inline comments never broken off"] = "re-scan oracle on every case (comment kinds are part of the compared token kinds)"
     ctx.hypotheses["lex_one_local (each sub-lexer depends on its own bytes plus a follow set)"] = "re-scan with the verified model lexer and with the real lexer on every case"
 
